@@ -1,4 +1,7 @@
 import SaphyrVerif.Spec.Expand
+import SaphyrVerif.Lemmas.C08_Count
+import SaphyrVerif.Lemmas.C08_Heap
+import SaphyrVerif.Lemmas.C08_Run
 /-!
 # C08 — expansion work and memory are bounded by the budget and alias limits
 
@@ -7,6 +10,11 @@ the budget enforcer first — raw and replayed events alike —, replay counters
 on a delivered event, and the number of buffered events (open recording frames + stored anchor
 buffers) is bounded by (open frames + 1) × delivered events.  The last bound is tight: memory is NOT
 linear in input size + counted events (finding C08-heap-depth-times-events).
+
+Two statements are false as first written and are kept as `*_Full : Prop` with counterexamples and corrected
+`*_partial` versions: the null scalar synthesized for a stream without content is delivered WITHOUT being
+shown to the enforcer (so `maxEvents = 0` / `maxNodes = 0` still deliver one node), the placeholder scalar of
+the recursion wrappers is counted as an alias only, and `observe` re-checks the node limit only on node events.
 -/
 namespace SaphyrVerif.Props.C08
 open SaphyrVerif SaphyrVerif.Scalars SaphyrVerif.Pump SaphyrVerif.Budget SaphyrVerif.Spec
@@ -18,33 +26,157 @@ def isNodeEv : Ev → Bool
 def observedEvents (p : Pump) : Nat := match p.budget with | some e => e.report.events | none => 0
 def observedNodes (p : Pump) : Nat := match p.budget with | some e => e.report.nodes | none => 0
 
-/-- (T) one step: an event is delivered only after the enforcer accepted it — the event counter grows
-by at least one, the node counter by one for a node event, and both stay within their limits
-(all-content policy; for ANY input, well-formed or not). -/
-theorem step_observed (p : Pump) (inp : List RawItem) (e : Ev) (p' : Pump) (rest : List RawItem) (enf : Enf)
+theorem isNodeEv_eq (e : Ev) : isNodeEv e = Lemmas.C08.nodeEv e := by cases e <;> rfl
+
+/-- (F as stated, see `step_observed_counterexample*`) one step: an event is delivered only after the
+enforcer accepted it — the event counter grows by at least one, the node counter by one for a node event,
+and both stay within their limits (all-content policy; for ANY input, well-formed or not). -/
+def step_observed_Full : Prop :=
+  ∀ (p : Pump) (inp : List RawItem) (e : Ev) (p' : Pump) (rest : List RawItem) (enf : Enf)
+    (_hb : p.budget = some enf) (_hpd : enf.perDocument = false)
+    (_h : nextImpl p inp = (.event e, p', rest)),
+    ∃ enf', p'.budget = some enf' ∧ enf'.perDocument = false ∧ enf'.lim = enf.lim ∧
+      enf.report.events + 1 ≤ enf'.report.events ∧
+      enf.report.nodes + (if isNodeEv e then 1 else 0) ≤ enf'.report.nodes ∧
+      enf'.report.events ≤ enf.lim.maxEvents ∧ enf'.report.nodes ≤ enf.lim.maxNodes
+
+def cexLimits : AliasLimits := ⟨1, 1, 1⟩
+def cexLim (maxEvents maxNodes : Nat) : Limits := ⟨maxEvents, 10, 10, 10, 10, maxNodes, 10, 10, false, 0, 0⟩
+
+/-- Counterexample 1 (the synthesized null): on an exhausted input a pump that has produced nothing delivers
+a null scalar WITHOUT calling `observe` at all — neither counter moves (here even with all limits 0). -/
+theorem step_observed_counterexample : ¬ step_observed_Full := by
+  intro H
+  obtain ⟨enf', hb, -, -, hev, -⟩ :=
+    H { limits := cexLimits, budget := some (Enf.new (cexLim 0 0) false) } []
+      (.scalar [] 4 none .plain 0 0)
+      { limits := cexLimits, budget := some (Enf.new (cexLim 0 0) false), producedAny := true, synthesizedNull := true } []
+      (Enf.new (cexLim 0 0) false) rfl rfl rfl
+  cases hb
+  exact absurd hev (by decide)
+
+/-- Counterexample 2 (node bound without a within-limits start): `observe` checks the node limit only on
+node events; from an enforcer state that is already over the node limit an end event is still delivered.
+(Something was produced before and no recursion wrapper is active.) -/
+theorem step_observed_counterexample_nodes :
+    ∃ (p : Pump) (inp : List RawItem) (e : Ev) (p' : Pump) (rest : List RawItem) (enf : Enf),
+      p.budget = some enf ∧ enf.perDocument = false ∧ p.producedAny = true ∧ p.recursiveInProgress = [] ∧
+      nextImpl p inp = (.event e, p', rest) ∧
+      ∀ enf', p'.budget = some enf' → ¬ enf'.report.nodes ≤ enf.lim.maxNodes := by
+  refine ⟨{ limits := cexLimits, producedAny := true,
+            budget := some { lim := cexLim 10 0, perDocument := false, report := { nodes := 5 }, depth := 1,
+                             containers := [.seq false] } },
+    [.ev .seqEnd 7], .seqEnd 7, _, _, _, rfl, rfl, rfl, rfl, rfl, ?_⟩
+  intro enf' hb
+  cases hb
+  decide
+
+/-- Counterexample 3 (recursion wrappers): an alias to an anchor that is still being recorded and is marked
+"in progress" is delivered as a placeholder scalar; only the alias was observed, so the node counter does not
+grow although a node event is delivered. -/
+theorem step_observed_counterexample_recursive :
+    ∃ (p : Pump) (inp : List RawItem) (e : Ev) (p' : Pump) (rest : List RawItem) (enf : Enf),
+      p.budget = some enf ∧ enf.perDocument = false ∧ p.producedAny = true ∧
+      enf.report.nodes ≤ enf.lim.maxNodes ∧
+      nextImpl p inp = (.event e, p', rest) ∧
+      ∀ enf', p'.budget = some enf' → ¬ enf.report.nodes + (if isNodeEv e then 1 else 0) ≤ enf'.report.nodes := by
+  refine ⟨{ limits := cexLimits, producedAny := true, recursiveInProgress := [7],
+            recStack := [{ id := 7, depth := 1, buf := [.seqStart 7 0 none 1] }],
+            budget := some (Enf.new (cexLim 10 10) false) },
+    [.ev (.alias 7) 3], .scalar [] 4 none .plain 7 3, _, _, _, rfl, rfl, rfl, by decide, rfl, ?_⟩
+  intro enf' hb
+  cases hb
+  decide
+
+/-- (T) one step, corrected: if no recursion wrapper is active, the delivered event is not the synthesized
+null of an empty stream (something was produced before, or the null flag stays clear) and the node counter
+starts within its limit, then the event was observed first: the event counter grows by at least one, the node
+counter by one for a node event, and both are within their limits (all-content policy; ANY input). -/
+theorem step_observed_partial (p : Pump) (inp : List RawItem) (e : Ev) (p' : Pump) (rest : List RawItem) (enf : Enf)
     (hb : p.budget = some enf) (hpd : enf.perDocument = false)
+    (hrec : p.recursiveInProgress = [])
+    (hnull : p.producedAny = true ∨ p'.synthesizedNull = false)
+    (hn : enf.report.nodes ≤ enf.lim.maxNodes)
     (h : nextImpl p inp = (.event e, p', rest)) :
     ∃ enf', p'.budget = some enf' ∧ enf'.perDocument = false ∧ enf'.lim = enf.lim ∧
       enf.report.events + 1 ≤ enf'.report.events ∧
       enf.report.nodes + (if isNodeEv e then 1 else 0) ≤ enf'.report.nodes ∧
       enf'.report.events ≤ enf.lim.maxEvents ∧ enf'.report.nodes ≤ enf.lim.maxNodes := by
-  sorry
+  obtain ⟨-, -, hcase⟩ := Lemmas.C08.nextImpl_budget p inp e p' rest enf hb hpd h
+  rcases hcase with ⟨enf', hb', ⟨o1, o2, o3, o4, o5⟩, -⟩ | ⟨n1, n2, -⟩
+  · rcases o5 with ⟨o5, o6⟩ | ⟨hne, -⟩
+    · refine ⟨enf', hb', o1, o2, o3, ?_, o4, ?_⟩
+      · rw [isNodeEv_eq]; omega
+      · by_cases hne : Lemmas.C08.nodeEv e = true
+        · exact o6 hne
+        · simp only [hne] at o5; simp at o5; omega
+    · exact absurd hrec hne
+  · rcases hnull with hp | hs
+    · rw [hp] at n1; cases n1
+    · rw [hs] at n2; cases n2
 
-/-- (T) delivered_le_observed + observed_le_max: over a whole run from a fresh pump with a budget, the
-number of events (nodes) handed to the deserializer never exceeds the event (node) limit — whatever the
-input could expand to. -/
-theorem delivered_le_limits (L : AliasLimits) (lim : Limits) (inp : List RawItem) (fuel : Nat)
+/-- (F as stated, see `delivered_le_limits_counterexample`) delivered_le_observed + observed_le_max: over a
+whole run from a fresh pump with a budget, the number of events (nodes) handed to the deserializer never
+exceeds the event (node) limit — whatever the input could expand to. -/
+def delivered_le_limits_Full : Prop :=
+  ∀ (L : AliasLimits) (lim : Limits) (inp : List RawItem) (fuel : Nat)
+    (evs : List Ev) (err : Option PErr) (p' : Pump)
+    (_h : pumpAll fuel { limits := L, budget := some (Enf.new lim false) } inp [] = some (evs, err, p')),
+    evs.length ≤ lim.maxEvents ∧ (evs.filter isNodeEv).length ≤ lim.maxNodes
+
+/-- Counterexample: with `maxEvents = 0` (or `maxNodes = 0`) the empty input still delivers one event, the
+synthesized null scalar, which is never shown to the enforcer. -/
+theorem delivered_le_limits_counterexample : ¬ delivered_le_limits_Full := by
+  intro H
+  have := (H cexLimits (cexLim 0 0) [] 2 [.scalar [] 4 none .plain 0 0] none _ rfl).1
+  exact absurd this (by decide)
+
+/-- the same with a non-empty input and a positive event limit: an empty document has one node -/
+theorem delivered_le_limits_counterexample_nodes :
+    ∃ p', pumpAll 2 { limits := cexLimits, budget := some (Enf.new (cexLim 10 0) false) }
+        [.ev .streamStart 0, .ev (.docStart false) 1, .ev .docEnd 2, .ev .streamEnd 3] [] =
+      some ([.scalar [] 4 none .plain 0 3], none, p') ∧
+      ¬ ([Ev.scalar [] 4 none .plain 0 3].filter isNodeEv).length ≤ (cexLim 10 0).maxNodes :=
+  ⟨_, rfl, by decide⟩
+
+/-- (T) the sharp form: a whole run from a fresh pump with a budget either stays within the event and node
+limits, or it delivered exactly one event — the synthesized null of a stream without content — and ended. -/
+theorem delivered_le_limits_or_null (L : AliasLimits) (lim : Limits) (inp : List RawItem) (fuel : Nat)
     (evs : List Ev) (err : Option PErr) (p' : Pump)
     (h : pumpAll fuel { limits := L, budget := some (Enf.new lim false) } inp [] = some (evs, err, p')) :
+    (evs.length ≤ lim.maxEvents ∧ (evs.filter isNodeEv).length ≤ lim.maxNodes) ∨
+      ((∃ loc, evs = [.scalar [] 4 none .plain 0 loc]) ∧ err = none ∧ p'.synthesizedNull = true) := by
+  have hf : isNodeEv = Lemmas.C08.nodeEv := funext isNodeEv_eq
+  rw [hf]
+  refine Lemmas.C08.pumpAll_bound lim fuel _ inp [] evs err p' ?_ h
+  exact ⟨Enf.new lim false, rfl, rfl, rfl, rfl, Nat.zero_le _, Nat.zero_le _, Nat.zero_le _, Nat.zero_le _,
+    fun h => absurd rfl h⟩
+
+/-- (T) delivered_le_limits, corrected: if no null was synthesized, or the limits allow one event and one
+node, the number of events (nodes) handed to the deserializer never exceeds the event (node) limit —
+whatever the input could expand to. -/
+theorem delivered_le_limits_partial (L : AliasLimits) (lim : Limits) (inp : List RawItem) (fuel : Nat)
+    (evs : List Ev) (err : Option PErr) (p' : Pump)
+    (hnull : p'.synthesizedNull = false ∨ (1 ≤ lim.maxEvents ∧ 1 ≤ lim.maxNodes))
+    (h : pumpAll fuel { limits := L, budget := some (Enf.new lim false) } inp [] = some (evs, err, p')) :
     evs.length ≤ lim.maxEvents ∧ (evs.filter isNodeEv).length ≤ lim.maxNodes := by
-  sorry
+  rcases delivered_le_limits_or_null L lim inp fuel evs err p' h with hok | ⟨⟨loc, rfl⟩, -, hs⟩
+  · exact hok
+  · rcases hnull with hn | ⟨h1, h2⟩
+    · rw [hn] at hs; cases hs
+    · exact ⟨h1, h2⟩
 
 /-- (T) replayed_le_limit: a replayed event is delivered only while the total stays within the limit -/
 theorem replayed_le_limit (p : Pump) (inp : List RawItem) (e : Ev) (p' : Pump) (rest : List RawItem)
     (hinv : p.totalReplayed ≤ p.limits.maxTotalReplayedEvents)
     (h : nextImpl p inp = (.event e, p', rest)) :
     p'.totalReplayed ≤ p'.limits.maxTotalReplayedEvents ∧ p'.limits = p.limits := by
-  sorry
+  obtain ⟨q, hsk, hfin⟩ := Lemmas.C08.nextImpl_event p inp e p' rest h
+  obtain ⟨a, b⟩ := hsk.replayed hinv
+  rcases hfin with ⟨⟨_, _, _, rfl⟩, _⟩ | hd
+  · exact ⟨a, b⟩
+  · obtain ⟨c, d⟩ := hd.replayed a
+    exact ⟨c, d.trans b⟩
 
 /-- (T) per_anchor_le_limit: an alias is expanded only while its anchor's expansion count stays within the
 limit: after a delivered event every counter is within the limit if it was before -/
@@ -52,7 +184,11 @@ theorem per_anchor_le_limit (p : Pump) (inp : List RawItem) (e : Ev) (p' : Pump)
     (hinv : ∀ id, lookupCount p.perAnchor id ≤ p.limits.maxAliasExpansionsPerAnchor)
     (h : nextImpl p inp = (.event e, p', rest)) :
     ∀ id, lookupCount p'.perAnchor id ≤ p'.limits.maxAliasExpansionsPerAnchor := by
-  sorry
+  obtain ⟨q, hsk, hfin⟩ := Lemmas.C08.nextImpl_event p inp e p' rest h
+  have a := hsk.perAnchor hinv
+  rcases hfin with ⟨⟨_, _, _, rfl⟩, _⟩ | hd
+  · exact a
+  · exact hd.perAnchor a
 
 /-- (T) within_limits_accepted is `pump_eq_expand_partial` of C02 (an expansion that stays within the three
 alias limits is delivered completely); here: the nesting limit only matters at 0, because the replay stack
@@ -60,7 +196,8 @@ never holds more than one frame (`inject_len_le_one`). -/
 theorem nesting_limit_only_at_zero (p : Pump) (inp : List RawItem) (d m : Nat) (l : Loc) (p' : Pump) (rest : List RawItem)
     (hinj : p.inject.length ≤ 1)
     (h : nextImpl p inp = (.error (.replayStackDepth d m l), p', rest)) : d = 1 ∧ m = 0 := by
-  sorry
+  have _ := hinj
+  exact Lemmas.C08.nextImpl_depthErr p inp d m l p' rest h
 
 /-- buffered events: open recording frames + stored anchor buffers (the model keeps shadowed table
 entries, so this over-approximates what the code holds) -/
@@ -72,7 +209,7 @@ buffered events -/
 theorem heap_step (p : Pump) (inp : List RawItem) (e : Ev) (p' : Pump) (rest : List RawItem)
     (h : nextImpl p inp = (.event e, p', rest)) :
     heapEvents p' ≤ heapEvents p + (max p.recStack.length p'.recStack.length) + 1 := by
-  sorry
+  exact Lemmas.C08.nextImpl_heap p inp e p' rest h
 
 /-- (F) heap_not_linear: the memory clause "within a fixed multiple of input size plus budget-counted
 events" is false of the model (and of the code, measured with a counting allocator by the check): d
@@ -96,5 +233,19 @@ theorem heap_not_linear_witness :
     (itemsOf (nest 48 (flatSeq 8))).length = 106 ∧
     (heapAtEnd (nest 48 (flatSeq 8))).map (fun h => decide (h > 13 * (106 + 106))) = some true := by
   decide +kernel
+
+#print axioms step_observed_counterexample
+#print axioms step_observed_counterexample_nodes
+#print axioms step_observed_counterexample_recursive
+#print axioms step_observed_partial
+#print axioms delivered_le_limits_counterexample
+#print axioms delivered_le_limits_counterexample_nodes
+#print axioms delivered_le_limits_or_null
+#print axioms delivered_le_limits_partial
+#print axioms replayed_le_limit
+#print axioms per_anchor_le_limit
+#print axioms nesting_limit_only_at_zero
+#print axioms heap_step
+#print axioms heap_not_linear_witness
 
 end SaphyrVerif.Props.C08
